@@ -203,8 +203,8 @@ A_INTERN void a_slist_rot(a_slist *ctx)
     a_slist_node *const node = ctx->head.next;
     if (node)
     {
-        a_slist_link(&ctx->head, node->next);
         a_slist_link(ctx->tail, node);
+        a_slist_link(&ctx->head, node->next);
         node->next = A_NULL;
         ctx->tail = node;
     }
